@@ -100,10 +100,18 @@ fn get_node_cover_range_impl(
     let is_document = node.is::<Markup>() && node.parent().is_none();
     // Blank space is not worth formatting on its own (and must not be indented).
     let is_blank = matches!(node.kind(), SyntaxKind::Space | SyntaxKind::Parbreak);
+    // The callee of a method call cannot be replaced on its own: a broken chain is wrapped in
+    // parentheses, and '(a.b)(x)' calls the field's value instead of the method.
+    let is_method_callee = node.kind() == SyntaxKind::FieldAccess
+        && node.parent_kind() == Some(SyntaxKind::FuncCall)
+        && node.prev_sibling().is_none();
     (node_range.start <= range.start
         && node_range.end >= range.end
         && (is_document
-            || !node.is::<Markup>() && !is_blank && (node.is::<Expr>() || node.is::<Pattern>())))
+            || !node.is::<Markup>()
+                && !is_blank
+                && !is_method_callee
+                && (node.is::<Expr>() || node.is::<Pattern>())))
     .then(|| (node.span(), mode))
     // It returns span to avoid problems with borrowing.
 }
